@@ -187,7 +187,11 @@ def src(n):
     if t == "for":
         ids, what, coll, body = a
         v = ids[0] if len(ids) == 1 else "[" + ", ".join(ids) + "]"
-        return f"for {v} in {what_src(what, 'values')}{expr(coll)} {body_src(body)}"
+        w = what_src(what, 'values')
+        c = expr(coll)
+        if what == "values" and len(c) % 3 == 0:      # the default word written out: `for x in values m`
+            w = "values "
+        return f"for {v} in {w}{c} {body_src(body)}"
     if t == "while":
         body = a[1]
         return f"while {orexpr(a[0])} " + (block_src(body) if body["n"] == "block" else "do " + src(body) + " end")
